@@ -103,6 +103,38 @@ pub fn check(c: &(M, M), obs: &mut Obs) -> Result<(), String> {
     Ok(())
 }
 
+/// long lists over a pool of `m` distinct elements: more than 64 / 256 / 65536 distinct
+/// elements, early elements repeated late, the two lists in different orders
+pub fn big_pair(n1: usize, n2: usize, m: usize, seed: u16, kinds: u8) -> (M, M) {
+    let elem = |k: usize| -> M {
+        match kinds % 3 {
+            0 => M::Num(N::U(k as u64)),
+            1 => match k % 4 {
+                0 => M::Num(N::U(k as u64)),
+                1 => M::Str(format!("s{k}")),
+                2 => M::Arr(vec![M::Num(N::I(-(k as i64)))]),
+                _ => M::Num(N::F(k as f64)),
+            },
+            _ => M::Obj([(format!("k{}", k % 7), M::Num(N::U(k as u64)))].into_iter().collect()),
+        }
+    };
+    let s = seed as usize;
+    let a: Vec<M> = (0..n1).map(|i| elem((i * 7 + s) % m)).collect();
+    let b: Vec<M> = (0..n2).map(|i| elem((i * 13 + s / 3 + m / 2) % m)).collect();
+    (M::Arr(a), M::Arr(b))
+}
+
+pub fn arb_pair_with_big(level: u8) -> BoxedStrategy<(M, M)> {
+    let sizes: &'static [usize] = if level >= 2 { &[3, 64, 65, 70, 255, 256, 257, 300, 1000, 4096, 65536, 70000] } else { &[3, 64, 65, 70, 100, 255, 256, 257, 300] };
+    let pools: &'static [usize] = &[5, 60, 66, 100, 300, 1000, 70001];
+    prop_oneof![
+        60 => arb_pair(),
+        1 => (0..sizes.len(), 0..sizes.len(), 0..pools.len(), any::<u16>(), any::<u8>())
+            .prop_map(move |(i, j, p, seed, kinds)| big_pair(sizes[i], sizes[j], pools[p], seed, kinds)),
+    ]
+    .boxed()
+}
+
 pub fn arb_pair() -> BoxedStrategy<(M, M)> {
     let pool = vec(
         prop_oneof![
@@ -136,5 +168,6 @@ pub fn arb_pair() -> BoxedStrategy<(M, M)> {
 
 fn run(ctx: &mut Ctx) {
     let cases = ctx.share(ctx.tier.pick(600_000, 6_000_000));
-    run_strategy(ctx, "C13", "pairs", cases, arb_pair(), check);
+    let level = ctx.tier.pick(1, 2);
+    run_strategy(ctx, "C13", "pairs", cases, arb_pair_with_big(level), check);
 }
